@@ -1,24 +1,32 @@
 import TracklibVerif.Lemmas.DTWTable
 import TracklibVerif.Lemmas.FDTW
 import TracklibVerif.Lemmas.DTWFront
+import TracklibVerif.Lemmas.DTWScale
+import Mathlib.Analysis.Real.Sqrt
 import Mathlib.Algebra.Order.Field.Basic
 import Mathlib.Tactic.Ring
 import Mathlib.Algebra.Order.Ring.Rat
 /-! # C18 — time-warping cost is the optimal coupling cost and the matching realises it
 
-Property theorems only (helpers: `Lemmas/DTW.lean`, `Lemmas/DTWTable.lean`, `Lemmas/FDTW.lean`, `Lemmas/DTWFront.lean`). They are
+Property theorems only (helpers: `Lemmas/DTW.lean`, `Lemmas/DTWTable.lean`, `Lemmas/FDTW.lean`, `Lemmas/DTWFront.lean`,
+`Lemmas/DTWScale.lean`). They are
 about the executable model of `Model/DTWTable.lean` — the table form that the driver runs and the correspondence check
-compares with `tracklib.algo.comparison.match` / `compare` — for **all** pairs of non-empty tracks, all dimensions, and
-every accumulation `w` that is monotone in the accumulated cost (`A + B**p` and `max(A, B)` are).
+compares with `tracklib.algo.comparison.match` / `compare` — for **all** pairs of non-empty tracks, **every point distance**
+`dist` (what `_distance(·, ·, dim)` computes: `dim` 1, 2, 3 or a callable, positions of class `ENUCoords`, `GeoCoords` or
+`ECEFCoords`), and every accumulation `w` that is monotone in the accumulated cost (`A + B**p` and `max(A, B)` are).
 
-Layers: `dtw` / `fdtw` (the two algorithms, any accumulation) — sections `generic`, `links`; `_p2weight` and the front ends
-`matchCall` / `compareCall` as they are called (mode constant, `p` as type name + value, a track1 that may carry the
-features of an earlier matching) — sections `forms`, `session`, `cmpgen`; `matchTracks` / `compareTracks` (the same calls on
-tracks without features, `p` a Python number) over an ordered field — section `field`.
+Layers: `dtw` / `fdtw` (the two algorithms, any accumulation, any point distance) — sections `generic`, `links`; `_distance`,
+`_p2weight` and the front ends `matchCall` / `compareCall` as they are called (mode constant, `p` as type name + value, `dim` as
+a number or a callable, the class of the positions, a track1 that may carry the features of an earlier matching) — sections
+`forms`, `session`, `cmpgen`; `matchTracks` / `compareTracks` (the same calls on tracks without features, `p` a Python number)
+over an ordered field — section `field`. The swapped-call clause needs a symmetric point distance: `_distance` is symmetric
+on `ENUCoords` (any `dim`) and for `dim = 3` on the other two classes (`distanceOf_symm`); `GeoCoords.distance2DTo` (`dim = 2`)
+is **not** — it measures in the local frame of its argument — so for `GeoCoords` tracks with different heights the two call
+orders give different scores (finding `geo-2d-distance-asymmetric`; everything but the swap clause holds: `match_onesided`).
 
 Vocabulary: `S` is the list built by the backward step of `_dtw` (last pair first); `BackPath S` says that `S` is a
 monotone coupling with unit steps that ends at `(0,0)`; `costBack w 0 D S` is its accumulated cost
-`w(… w(w(0, D[0,0]), D[s₁]) …, D[last])`; `Dmat` is the code's distance matrix (`rows = track2`, `columns = track1`);
+`w(… w(w(0, D[0,0]), D[s₁]) …, D[last])`; `Dmat dist` is the code's distance matrix (`rows = track2`, `columns = track1`);
 `partners S.reverse j` is the content of the `pair` feature of observation `j` of the output. -/
 namespace TV.C18
 open TV.DTW
@@ -32,13 +40,14 @@ def IsCouplingOf (n1 n2 : Nat) (S : List (Nat × Nat)) : Prop :=
 
 /-- T1 `table_optimal`: the score that `_dtw` reports (`T[-1,-1]`) is the minimum, over **all** monotone unit-step
 couplings from the first pair to the last pair, of the accumulated cost: it is a lower bound of the cost of every
-coupling, and some coupling attains it. Only monotonicity of `w` in the accumulated cost is used. -/
-theorem table_optimal (sqrt : α → α) (w : α → α → α) (hw : ∀ a b d, a ≤ b → w a d ≤ w b d) (dim : Nat)
+coupling, and some coupling attains it. Only monotonicity of `w` in the accumulated cost is used; `dist` is any function
+of two positions (nothing is assumed of it: not symmetry, not sign, not the triangle inequality). -/
+theorem table_optimal (dist : Pt α → Pt α → α) (w : α → α → α) (hw : ∀ a b d, a ≤ b → w a d ≤ w b d)
     (t1 t2 : List (Pt α)) (h1 : 0 < t1.length) (h2 : 0 < t2.length) :
-    ∃ out, dtw sqrt w dim t1 t2 = some out ∧
-      (∀ S, IsCouplingOf t1.length t2.length S → out.score ≤ costBack w 0 (Dmat sqrt dim t1 t2) S) ∧
-      (∃ S, IsCouplingOf t1.length t2.length S ∧ costBack w 0 (Dmat sqrt dim t1 t2) S = out.score) := by
-  obtain ⟨rows, he, _, _⟩ := dtw_spec sqrt w dim t1 t2 h1 h2
+    ∃ out, dtw dist w t1 t2 = some out ∧
+      (∀ S, IsCouplingOf t1.length t2.length S → out.score ≤ costBack w 0 (Dmat dist t1 t2) S) ∧
+      (∃ S, IsCouplingOf t1.length t2.length S ∧ costBack w 0 (Dmat dist t1 t2) S = out.score) := by
+  obtain ⟨rows, he, _, _⟩ := dtw_spec dist w t1 t2 h1 h2
   refine ⟨_, he, ?_, ?_⟩
   · intro S hS
     exact T_le w 0 _ hw _ _ _ (backPath_coupling w 0 _ S _ _ hS.1 hS.2)
@@ -46,77 +55,78 @@ theorem table_optimal (sqrt : α → α) (w : α → α → α) (hw : ∀ a b d,
       walkF_cost w 0 _ (t1.length + t2.length) (t2.length - 1) (t1.length - 1) (by omega)⟩
 
 /-- T2 `score_symmetric`: swapping the two tracks does not change the score (the lattice is transposed), provided the
-point distance is symmetric (`distance_symm` below: it is, over an ordered field). -/
-theorem score_symmetric (sqrt : α → α) (w : α → α → α) (dim : Nat)
-    (hd : ∀ p q : Pt α, distance sqrt dim p q = distance sqrt dim q p)
+point distance is symmetric (`distanceOf_symm` below: over an ordered field `_distance` is, on `ENUCoords` for every `dim` and on
+`GeoCoords` / `ECEFCoords` for `dim = 3`; `GeoCoords.distance2DTo` is not). -/
+theorem score_symmetric (dist : Pt α → Pt α → α) (w : α → α → α)
+    (hd : ∀ p q : Pt α, dist p q = dist q p)
     (t1 t2 : List (Pt α)) (h1 : 0 < t1.length) (h2 : 0 < t2.length) :
-    ∃ o12 o21, dtw sqrt w dim t1 t2 = some o12 ∧ dtw sqrt w dim t2 t1 = some o21 ∧ o12.score = o21.score := by
-  obtain ⟨r12, e12, _, _⟩ := dtw_spec sqrt w dim t1 t2 h1 h2
-  obtain ⟨r21, e21, _, _⟩ := dtw_spec sqrt w dim t2 t1 h2 h1
+    ∃ o12 o21, dtw dist w t1 t2 = some o12 ∧ dtw dist w t2 t1 = some o21 ∧ o12.score = o21.score := by
+  obtain ⟨r12, e12, _, _⟩ := dtw_spec dist w t1 t2 h1 h2
+  obtain ⟨r21, e21, _, _⟩ := dtw_spec dist w t2 t1 h2 h1
   refine ⟨_, _, e12, e21, ?_⟩
-  show T w 0 (Dmat sqrt dim t1 t2) (t2.length - 1) (t1.length - 1) = T w 0 (Dmat sqrt dim t2 t1) (t1.length - 1) (t2.length - 1)
-  have hD : Dmat sqrt dim t2 t1 = fun a b => Dmat sqrt dim t1 t2 b a := by
+  show T w 0 (Dmat dist t1 t2) (t2.length - 1) (t1.length - 1) = T w 0 (Dmat dist t2 t1) (t1.length - 1) (t2.length - 1)
+  have hD : Dmat dist t2 t1 = fun a b => Dmat dist t1 t2 b a := by
     funext a b; unfold Dmat; exact hd _ _
-  rw [hD, T_transpose w 0 (Dmat sqrt dim t1 t2) _ _ _ rfl]
+  rw [hD, T_transpose w 0 (Dmat dist t1 t2) _ _ _ rfl]
 
 /-- T3 `path_valid`: the list `S` produced by the backward walk through `M` is a monotone coupling with unit steps from
 the last pair down to `(0,0)`; `nb_links` is its length; the `pair` feature of the output lists exactly its pairs
 (`i ∈ pair[j] ↔ (i, j) ∈ S`); consequently every observation of track1 has at least one partner and every observation of
 track2 is the partner of some observation of track1. -/
-theorem path_valid (sqrt : α → α) (w : α → α → α) (dim : Nat)
+theorem path_valid (dist : Pt α → Pt α → α) (w : α → α → α)
     (t1 t2 : List (Pt α)) (h1 : 0 < t1.length) (h2 : 0 < t2.length) :
-    ∃ out, dtw sqrt w dim t1 t2 = some out ∧
+    ∃ out, dtw dist w t1 t2 = some out ∧
       IsCouplingOf t1.length t2.length out.S ∧
       out.nbLinks = out.S.length ∧ out.rows.length = t1.length ∧
       (∀ s ∈ out.S, s.1 < t2.length ∧ s.2 < t1.length) ∧
       (∀ j, j < t1.length → ∃ r : Row α, out.rows[j]? = some r ∧ (∀ i, i ∈ r.pair ↔ (i, j) ∈ out.S) ∧ r.pair ≠ []) ∧
       (∀ i, i < t2.length → ∃ (j : Nat) (r : Row α), out.rows[j]? = some r ∧ i ∈ r.pair) := by
-  obtain ⟨rows, he, hl, hp⟩ := dtw_spec sqrt w dim t1 t2 h1 h2
-  have hbp := walkF_backPath w 0 (Dmat sqrt dim t1 t2) (t1.length + t2.length) (t2.length - 1) (t1.length - 1) (by omega)
-  have hhd := walkF_head w 0 (Dmat sqrt dim t1 t2) (t1.length + t2.length) (t2.length - 1, t1.length - 1)
+  obtain ⟨rows, he, hl, hp⟩ := dtw_spec dist w t1 t2 h1 h2
+  have hbp := walkF_backPath w 0 (Dmat dist t1 t2) (t1.length + t2.length) (t2.length - 1) (t1.length - 1) (by omega)
+  have hhd := walkF_head w 0 (Dmat dist t1 t2) (t1.length + t2.length) (t2.length - 1, t1.length - 1)
   obtain ⟨r1, r2, r3⟩ := rows_pairs _ t1.length t2.length rows hbp hhd h1 h2 hl hp
   exact ⟨_, he, ⟨hbp, hhd⟩, rfl, hl, r1, r2, r3⟩
 
 /-- T4 `path_realises`: the accumulated cost of the returned coupling equals the reported score. This is where the
 predecessor encoding matters: each back-pointer designates a *minimal* predecessor (`T_pred`; false before 42f835b). -/
-theorem path_realises (sqrt : α → α) (w : α → α → α) (dim : Nat)
+theorem path_realises (dist : Pt α → Pt α → α) (w : α → α → α)
     (t1 t2 : List (Pt α)) (h1 : 0 < t1.length) (h2 : 0 < t2.length) :
-    ∃ out, dtw sqrt w dim t1 t2 = some out ∧ costBack w 0 (Dmat sqrt dim t1 t2) out.S = out.score := by
-  obtain ⟨rows, he, _, _⟩ := dtw_spec sqrt w dim t1 t2 h1 h2
+    ∃ out, dtw dist w t1 t2 = some out ∧ costBack w 0 (Dmat dist t1 t2) out.S = out.score := by
+  obtain ⟨rows, he, _, _⟩ := dtw_spec dist w t1 t2 h1 h2
   exact ⟨_, he, walkF_cost w 0 _ (t1.length + t2.length) (t2.length - 1) (t1.length - 1) (by omega)⟩
 
 /-- T5 `fdtw_equal`: the fast variant `_fdtw` (best-first search with `priority_dict`) reports the same score as
 `_dtw`, for every accumulation that is monotone in the accumulated cost and inflationary on the distances at hand
 (`a ≤ w a d`: true for `a + d^p` with `d ≥ 0` and for `max`), `big` (the 1e300 placeholder priority) being above every
 candidate cost. The queue is only assumed to return *an* entry of least priority (ties between keys are irrelevant). -/
-theorem fdtw_equal (sqrt : α → α) (big : α) (w : α → α → α) (dim : Nat) (t1 t2 : List (Pt α))
+theorem fdtw_equal (dist : Pt α → Pt α → α) (big : α) (w : α → α → α) (t1 t2 : List (Pt α))
     (h1 : 0 < t1.length) (h2 : 0 < t2.length)
     (hw : ∀ a b d, a ≤ b → w a d ≤ w b d)
-    (hinf : ∀ a i j, i < t2.length → j < t1.length → a ≤ w a (Dmat sqrt dim t1 t2 i j))
+    (hinf : ∀ a i j, i < t2.length → j < t1.length → a ≤ w a (Dmat dist t1 t2 i j))
     (hbig : ∀ i j i' j', i < t2.length → j < t1.length → i' < t2.length → j' < t1.length →
-      w (T w 0 (Dmat sqrt dim t1 t2) i j) (Dmat sqrt dim t1 t2 i' j') < big) :
-    ∃ od ofast, dtw sqrt w dim t1 t2 = some od ∧ fdtw sqrt big w dim t1 t2 = some ofast ∧ ofast.score = od.score := by
-  obtain ⟨rows, he, _, _⟩ := dtw_spec sqrt w dim t1 t2 h1 h2
-  obtain ⟨S, rows', he', _⟩ := fdtw_spec sqrt big w dim t1 t2 h1 h2 hw hinf hbig
+      w (T w 0 (Dmat dist t1 t2) i j) (Dmat dist t1 t2 i' j') < big) :
+    ∃ od ofast, dtw dist w t1 t2 = some od ∧ fdtw dist big w t1 t2 = some ofast ∧ ofast.score = od.score := by
+  obtain ⟨rows, he, _, _⟩ := dtw_spec dist w t1 t2 h1 h2
+  obtain ⟨S, rows', he', _⟩ := fdtw_spec dist big w t1 t2 h1 h2 hw hinf hbig
   exact ⟨_, _, he, he', rfl⟩
 
 /-- T5b `fdtw_path`: the matching returned by the fast variant is also a monotone unit-step coupling from the last pair
 to `(0,0)` (walk through the antecedent map `A`), its accumulated cost is the reported score, `nb_links` and the `pair`
 feature describe it, and nobody is left out. -/
-theorem fdtw_path (sqrt : α → α) (big : α) (w : α → α → α) (dim : Nat) (t1 t2 : List (Pt α))
+theorem fdtw_path (dist : Pt α → Pt α → α) (big : α) (w : α → α → α) (t1 t2 : List (Pt α))
     (h1 : 0 < t1.length) (h2 : 0 < t2.length)
     (hw : ∀ a b d, a ≤ b → w a d ≤ w b d)
-    (hinf : ∀ a i j, i < t2.length → j < t1.length → a ≤ w a (Dmat sqrt dim t1 t2 i j))
+    (hinf : ∀ a i j, i < t2.length → j < t1.length → a ≤ w a (Dmat dist t1 t2 i j))
     (hbig : ∀ i j i' j', i < t2.length → j < t1.length → i' < t2.length → j' < t1.length →
-      w (T w 0 (Dmat sqrt dim t1 t2) i j) (Dmat sqrt dim t1 t2 i' j') < big) :
-    ∃ out, fdtw sqrt big w dim t1 t2 = some out ∧
+      w (T w 0 (Dmat dist t1 t2) i j) (Dmat dist t1 t2 i' j') < big) :
+    ∃ out, fdtw dist big w t1 t2 = some out ∧
       IsCouplingOf t1.length t2.length out.S ∧
-      costBack w 0 (Dmat sqrt dim t1 t2) out.S = out.score ∧
+      costBack w 0 (Dmat dist t1 t2) out.S = out.score ∧
       out.nbLinks = out.S.length ∧ out.rows.length = t1.length ∧
       (∀ s ∈ out.S, s.1 < t2.length ∧ s.2 < t1.length) ∧
       (∀ j, j < t1.length → ∃ r : Row α, out.rows[j]? = some r ∧ (∀ i, i ∈ r.pair ↔ (i, j) ∈ out.S) ∧ r.pair ≠ []) ∧
       (∀ i, i < t2.length → ∃ (j : Nat) (r : Row α), out.rows[j]? = some r ∧ i ∈ r.pair) := by
-  obtain ⟨S, rows, he, hbp, hhd, hcost, hl, hp⟩ := fdtw_spec sqrt big w dim t1 t2 h1 h2 hw hinf hbig
+  obtain ⟨S, rows, he, hbp, hhd, hcost, hl, hp⟩ := fdtw_spec dist big w t1 t2 h1 h2 hw hinf hbig
   obtain ⟨r1, r2, r3⟩ := rows_pairs S t1.length t2.length rows hbp hhd h1 h2 hl hp
   exact ⟨_, he, ⟨hbp, hhd⟩, hcost, rfl, hl, r1, r2, r3⟩
 
@@ -124,21 +134,21 @@ end generic
 
 /-! ### `_p2weight`: how `p` is recognised -/
 section forms
-variable {α : Type} [Add α] [Sub α] [Mul α] [Div α] [LinearOrder α] [OfNat α 0] [OfNat α 1]
+variable {α : Type} [Add α] [Sub α] [Mul α] [Div α] [Neg α] [LinearOrder α] [OfNat α 0] [OfNat α 1] [OfScientific α]
 
-omit [Sub α] [Div α] in
+omit [Sub α] [Div α] [Neg α] [OfScientific α] in
 /-- `_p2weight(p)` for a number whose type name contains `int` or `float` — Python `int` and `float`, `numpy.int8/16/32/64`,
 `numpy.uint8/16/32/64`, `numpy.float16/32/64` — is the accumulation of the *value* of `p`: `A + B**k` for `p == k`
 (`k = 1, 2, 3, …`), `A + (B != 0)*1` for `p == 0`, `max(A, B)` for `p == inf`. -/
 theorem p2weight_number (p : PArg) (v : PNorm) (hf : p.isFn = false) (hn : p.isNum = true) (hv : p.val = some v) :
     p2weight (α := α) p = .ok (weight v) := p2weight_numeric p v hf hn hv
 
-omit [Sub α] [Div α] in
+omit [Sub α] [Div α] [Neg α] [OfScientific α] in
 /-- an infinite `p` (`float('inf')`, `math.inf`, `numpy.inf`, `numpy.float16/32/64('inf')`, `numpy.longdouble('inf')`) gives
 `max(A, B)` whatever its type: the test `p == float('inf')` comes last -/
 theorem p2weight_infinite (p : PArg) (hv : p.val = some .inf) : p2weight (α := α) p = .ok (weight .inf) := p2weight_inf p hv
 
-omit [Sub α] [Div α] in
+omit [Sub α] [Div α] [Neg α] [OfScientific α] in
 /-- a number other than 0 and infinity whose type name contains none of `int`, `float`, `function` (`numpy.longdouble(2)`,
 `numpy.longlong(2)`, `numpy.ulonglong(2)`, `True`, `Fraction(2)`) binds nothing: `return weight` raises UnboundLocalError -/
 theorem p2weight_unrecognised (p : PArg) (hf : p.isFn = false) (hn : p.isNum = false) (h0 : p.val ≠ some (.nat 0))
@@ -158,69 +168,105 @@ example : PArg.isFn { tyname := "<class'function'>", val := none } = true ∧
     PArg.isNum { tyname := "<class'function'>", val := none } = false ∧
     PArg.isNum { tyname := "<class'builtin_function_or_method'>", val := none } = false := by decide
 
+/-! ### `_distance`: which `dim` on which class of positions -/
+
+omit [OfNat α 1] in
+/-- on `ENUCoords`, `dim = 1, 2, 3` give `abs(p1.U - p2.U)`, `(p2 - p1).norm2D()`, `(p2 - p1).norm()` (`distance`) -/
+theorem distance_enu (G : Geom α) (h : G.cls = Coords.enu) (d : Nat) (hd : d = 1 ∨ d = 2 ∨ d = 3) :
+    distanceOf G (.num d) = .ok (distance G.T.sqrt d) := by
+  simp only [distanceOf]
+  rw [if_pos hd, h]
+
+omit [OfNat α 1] in
+/-- the function form of `dim` (`'function' in str(type(dim))`): the callable is the point distance, whatever the class of
+the positions -/
+theorem distance_function_form (G : Geom α) (f : Pt α → Pt α → α) : distanceOf G (.fn f) = .ok f := rfl
+
+omit [OfNat α 1] in
+/-- on `GeoCoords`: `dim = 2` is `distance2DTo` (horizontal distance in the local frame of the second point), `dim = 3` the
+distance of the two ECEF images; `dim = 1` reads an attribute `U` that a `GeoCoords` does not have -/
+theorem distance_geo (G : Geom α) (h : G.cls = Coords.geo) :
+    distanceOf G (.num 1) = .error "err:attr" ∧
+    distanceOf G (.num 2) = .ok (fun p q => geoDistance2D G.T p.v3 q.v3) ∧
+    distanceOf G (.num 3) = .ok (fun p q => geoDistance3D G.T p.v3 q.v3) := by
+  simp only [distanceOf]
+  simp [h]
+
+omit [OfNat α 1] in
+/-- on `ECEFCoords` only `dim = 3` is defined (no `U`, no `distance2DTo`) -/
+theorem distance_ecef (G : Geom α) (h : G.cls = Coords.ecef) :
+    distanceOf G (.num 1) = .error "err:attr" ∧ distanceOf G (.num 2) = .error "err:attr" ∧
+    distanceOf G (.num 3) = .ok (fun p q => ecefDistance G.T p.v3 q.v3) := by
+  simp only [distanceOf]
+  simp [h]
+
+/-- where `_distance` is not defined, `match` (any of the three modes, any recognised `p`) on two non-empty tracks raises the
+error of the first `_distance` call: AttributeError for `dim = 1` on `GeoCoords` / `ECEFCoords` and `dim = 2` on `ECEFCoords` -/
+theorem match_distance_error (G : Geom α) (big : α) (mode : Mode) (p : PArg) (w : α → α → α)
+    (hp : p2weight (α := α) p = .ok w) (dim : DimArg α) (e : String) (hd : distanceOf G dim = .error e)
+    (a : TrackObj α) (t2 : List (Pt α)) (h1 : a.pts.isEmpty = false) (h2 : t2.isEmpty = false) :
+    matchCall G big mode.code p dim a t2 = .error e :=
+  matchCall_distance_error G big mode.code (by cases mode <;> simp [Mode.code]) p w hp dim e hd a t2 h1 h2
+
 /-! ### the front end `match`: constants, forms of `p`, histories -/
 
-omit [Div α] in
 /-- **every numeric form of `p` is the same call**: `match(track1, track2, mode, p, dim)` with the constant of the mode
 (`MODE_MATCHING_DTW = 2`, `FDTW = 3`, `FRECHET = 4`) and `p` a number of value `v` in any recognised type is the call that
 `match_correct` / `match_fdtw_correct` are about -/
-theorem match_any_form (sqrt : α → α) (big : α) (mode : Mode) (p : PArg) (v : PNorm)
-    (hf : p.isFn = false) (hn : p.isNum = true) (hv : p.val = some v) (dim : Nat) (t1 t2 : List (Pt α)) :
-    matchCall sqrt big mode.code p dim (TrackObj.fresh t1) t2 = matchTracks sqrt big mode v dim t1 t2 := by
+theorem match_any_form (G : Geom α) (big : α) (mode : Mode) (p : PArg) (v : PNorm)
+    (hf : p.isFn = false) (hn : p.isNum = true) (hv : p.val = some v) (dim : DimArg α) (t1 t2 : List (Pt α)) :
+    matchCall G big mode.code p dim (TrackObj.fresh t1) t2 = matchTracks G big mode v dim t1 t2 := by
   unfold matchTracks matchCall warpOn
   rw [p2weight_numeric p v hf hn hv, p2weight_ofNorm]
 
-omit [Div α] in
 /-- a callable `p` that computes the accumulation of `v` (`lambda A, B: A + B**2`, `lambda A, B: max(A, B)`, the builtin `max`)
 is the same call as the number `v` -/
-theorem match_callable_form (sqrt : α → α) (big : α) (mode : Mode) (p : PArg) (v : PNorm)
-    (hf : p.isFn = true) (hn : p.isNum = false) (hw : p.fnw = some v) (hv : p.val = none) (dim : Nat) (t1 t2 : List (Pt α)) :
-    matchCall sqrt big mode.code p dim (TrackObj.fresh t1) t2 = matchTracks sqrt big mode v dim t1 t2 := by
+theorem match_callable_form (G : Geom α) (big : α) (mode : Mode) (p : PArg) (v : PNorm)
+    (hf : p.isFn = true) (hn : p.isNum = false) (hw : p.fnw = some v) (hv : p.val = none) (dim : DimArg α) (t1 t2 : List (Pt α)) :
+    matchCall G big mode.code p dim (TrackObj.fresh t1) t2 = matchTracks G big mode v dim t1 t2 := by
   unfold matchTracks matchCall warpOn
   rw [p2weight_callable p v hf hn hw hv, p2weight_ofNorm]
 
-omit [Div α] in
 /-- any other constant (for instance one of the `MODE_COMPARISON_*`) is refused -/
-theorem match_unknown_mode (sqrt : α → α) (big : α) (mode : Nat) (h : mode ≠ 1 ∧ mode ≠ 2 ∧ mode ≠ 3 ∧ mode ≠ 4)
-    (p : PArg) (dim : Nat) (a : TrackObj α) (t2 : List (Pt α)) :
-    matchCall sqrt big mode p dim a t2 = .error "err:UnknownModeError" := by
+theorem match_unknown_mode (G : Geom α) (big : α) (mode : Nat) (h : mode ≠ 1 ∧ mode ≠ 2 ∧ mode ≠ 3 ∧ mode ≠ 4)
+    (p : PArg) (dim : DimArg α) (a : TrackObj α) (t2 : List (Pt α)) :
+    matchCall G big mode p dim a t2 = .error "err:UnknownModeError" := by
   unfold matchCall
   simp [h.1, h.2.1, h.2.2.1, h.2.2.2]
 
-omit [Div α] in
 /-- **a matched track matched again** (modes DTW, FRECHET): `match(m, track2, …)` where `m` carries the feature rows `rows0`
 of an earlier matching (or features the user created under the names `diff`, `pair`, `ex`, `ey`) returns exactly
 `match(track1, track2, …)` on the same positions without features -/
-theorem match_history_irrelevant (sqrt : α → α) (big : α) (mode : Mode) (hm : mode ≠ Mode.fdtw) (p : PNorm) (dim : Nat)
+theorem match_history_irrelevant (G : Geom α) (big : α) (mode : Mode) (hm : mode ≠ Mode.fdtw) (p : PNorm) (dim : DimArg α)
     (t1 t2 : List (Pt α)) (h1 : 0 < t1.length) (h2 : 0 < t2.length) (rows0 : List (Row α)) (hl : rows0.length = t1.length) :
-    matchCall sqrt big mode.code (PArg.ofNorm p) dim { pts := t1, rows := rows0 } t2 = matchTracks sqrt big mode p dim t1 t2 := by
+    matchCall G big mode.code (PArg.ofNorm p) dim { pts := t1, rows := rows0 } t2 = matchTracks G big mode p dim t1 t2 := by
   have : mode.code ≠ 3 := by cases mode <;> simp [Mode.code] at hm ⊢
-  exact matchCall_history sqrt big mode.code this _ dim t1 t2 rows0 hl h1 h2
+  exact matchCall_history G big mode.code this _ dim t1 t2 rows0 hl h1 h2
 
 
 end forms
 
 /-! ### sessions of calls on shared objects -/
 section session
-variable {α : Type} [Add α] [Sub α] [Mul α] [Div α] [LinearOrder α] [OfNat α 0] [OfNat α 1]
+variable {α : Type} [Add α] [Sub α] [Mul α] [Div α] [Neg α] [LinearOrder α] [OfNat α 0] [OfNat α 1] [OfScientific α]
 
 /-- the session `runSeq` with every call made on copies *without* features of the tracks involved: only the positions
 of the objects are kept (`none` = a call that returned no track) -/
-def runFresh (sqrt : α → α) (root : Nat → α → α) (ofNat : Nat → α) (big : α) :
-    List (Option (List (Pt α))) → List Step → List (Res α)
+def runFresh (G : Geom α) (root : Nat → α → α) (ofNat : Nat → α) (big : α) :
+    List (Option (List (Pt α))) → List (Step α) → List (Res α)
   | _, [] => []
   | geo, st :: rest =>
     match (geo[st.a]?).join, (geo[st.b]?).join with
     | some ta, some tb =>
       if st.front then
-        match matchCall sqrt big st.mode st.p st.dim (TrackObj.fresh ta) tb with
-        | .ok o => .matched o :: runFresh sqrt root ofNat big (geo ++ [some ta]) rest
-        | .error e => .err e :: runFresh sqrt root ofNat big (geo ++ [none]) rest
+        match matchCall G big st.mode st.p st.dim (TrackObj.fresh ta) tb with
+        | .ok o => .matched o :: runFresh G root ofNat big (geo ++ [some ta]) rest
+        | .error e => .err e :: runFresh G root ofNat big (geo ++ [none]) rest
       else
-        (match compareCall sqrt root ofNat big st.mode st.p st.dim (TrackObj.fresh ta) tb with
+        (match compareCall G root ofNat big st.mode st.p st.dim (TrackObj.fresh ta) tb with
           | .ok v => .value v
-          | .error e => .err e) :: runFresh sqrt root ofNat big (geo ++ [none]) rest
-    | _, _ => .err "bad-ref" :: runFresh sqrt root ofNat big (geo ++ [none]) rest
+          | .error e => .err e) :: runFresh G root ofNat big (geo ++ [none]) rest
+    | _, _ => .err "bad-ref" :: runFresh G root ofNat big (geo ++ [none]) rest
 
 /-- every object of the session is a non-empty track with one feature row per observation -/
 def WFEnv (env : List (Option (TrackObj α))) : Prop :=
@@ -233,11 +279,11 @@ returns on copies of the same positions that never went through `match`. In part
 `match(t1, t3)`: no link of the earlier matching survives, `nb_links` counts the new links only. (The FDTW modes 3 / 107
 are excluded here because their coupling is valid only under the hypotheses of `match_fdtw_correct`; `match_fdtw_history`
 is the single-call statement for them.) -/
-theorem session_history_irrelevant (sqrt : α → α) (root : Nat → α → α) (ofNat : Nat → α) (big : α) :
-    ∀ (steps : List Step) (env : List (Option (TrackObj α))), WFEnv env →
+theorem session_history_irrelevant (G : Geom α) (root : Nat → α → α) (ofNat : Nat → α) (big : α) :
+    ∀ (steps : List (Step α)) (env : List (Option (TrackObj α))), WFEnv env →
       (∀ st ∈ steps, st.mode ≠ 3 ∧ st.mode ≠ 107) →
-      runSeq sqrt root ofNat big env steps
-        = runFresh sqrt root ofNat big (env.map (Option.map TrackObj.pts)) steps
+      runSeq G root ofNat big env steps
+        = runFresh G root ofNat big (env.map (Option.map TrackObj.pts)) steps
   | [], env, _, _ => by simp [runSeq, runFresh]
   | st :: rest, env, hwf, hm => by
     have hst := hm st List.mem_cons_self
@@ -267,29 +313,29 @@ theorem session_history_irrelevant (sqrt : α → α) (root : Nat → α → α)
     cases ha : (env[st.a]?).join with
     | none =>
       simp only [Option.map_none]
-      rw [session_history_irrelevant sqrt root ofNat big rest _ hnone hrest, hmapnone]
+      rw [session_history_irrelevant G root ofNat big rest _ hnone hrest, hmapnone]
     | some a =>
       cases hb : (env[st.b]?).join with
       | none =>
         simp only [Option.map_none, Option.map_some]
-        rw [session_history_irrelevant sqrt root ofNat big rest _ hnone hrest, hmapnone]
+        rw [session_history_irrelevant G root ofNat big rest _ hnone hrest, hmapnone]
       | some b =>
         have hwa := hwf a (hmem _ _ ha)
         have hwb := hwf b (hmem _ _ hb)
         simp only [Option.map_some]
         by_cases hf : st.front = true
         · simp only [hf, if_true]
-          have hh : matchCall sqrt big st.mode st.p st.dim a b.pts
-              = matchCall sqrt big st.mode st.p st.dim (TrackObj.fresh a.pts) b.pts :=
-            matchCall_history sqrt big st.mode hst.1 st.p st.dim a.pts b.pts a.rows hwa.1 hwa.2 hwb.2
+          have hh : matchCall G big st.mode st.p st.dim a b.pts
+              = matchCall G big st.mode st.p st.dim (TrackObj.fresh a.pts) b.pts :=
+            matchCall_history G big st.mode hst.1 st.p st.dim a.pts b.pts a.rows hwa.1 hwa.2 hwb.2
           rw [hh]
-          cases hr : matchCall sqrt big st.mode st.p st.dim (TrackObj.fresh a.pts) b.pts with
+          cases hr : matchCall G big st.mode st.p st.dim (TrackObj.fresh a.pts) b.pts with
           | error e =>
             simp only
-            rw [session_history_irrelevant sqrt root ofNat big rest _ hnone hrest, hmapnone]
+            rw [session_history_irrelevant G root ofNat big rest _ hnone hrest, hmapnone]
           | ok o =>
             simp only
-            have hlen := matchCall_rows_length sqrt big st.mode hst.1 st.p st.dim a.pts b.pts hwa.2 hwb.2 o hr
+            have hlen := matchCall_rows_length G big st.mode hst.1 st.p st.dim a.pts b.pts hwa.2 hwb.2 o hr
             have hwf' : WFEnv (env ++ [some { pts := a.pts, rows := o.rows }]) := by
               intro obj ho
               rcases List.mem_append.mp ho with h | h
@@ -297,20 +343,20 @@ theorem session_history_irrelevant (sqrt : α → α) (root : Nat → α → α)
               · simp only [List.mem_singleton, Option.some.injEq] at h
                 subst h
                 exact ⟨hlen, hwa.2⟩
-            rw [session_history_irrelevant sqrt root ofNat big rest _ hwf' hrest]
+            rw [session_history_irrelevant G root ofNat big rest _ hwf' hrest]
             simp
         · simp only [hf, if_false, Bool.false_eq_true]
-          have hh : compareCall sqrt root ofNat big st.mode st.p st.dim a b.pts
-              = compareCall sqrt root ofNat big st.mode st.p st.dim (TrackObj.fresh a.pts) b.pts :=
-            compareCall_history sqrt root ofNat big st.mode hst.2 st.p st.dim a.pts b.pts a.rows hwa.1 hwa.2 hwb.2
-          rw [hh, session_history_irrelevant sqrt root ofNat big rest _ hnone hrest, hmapnone]
+          have hh : compareCall G root ofNat big st.mode st.p st.dim a b.pts
+              = compareCall G root ofNat big st.mode st.p st.dim (TrackObj.fresh a.pts) b.pts :=
+            compareCall_history G root ofNat big st.mode hst.2 st.p st.dim a.pts b.pts a.rows hwa.1 hwa.2 hwb.2
+          rw [hh, session_history_irrelevant G root ofNat big rest _ hnone hrest, hmapnone]
           rfl
 
 end session
 
 /-! ### the front end `compare` -/
 section cmpgen
-variable {α : Type} [Add α] [Sub α] [Mul α] [Div α] [LinearOrder α] [OfNat α 0] [OfNat α 1]
+variable {α : Type} [Add α] [Sub α] [Mul α] [Div α] [Neg α] [LinearOrder α] [OfNat α 0] [OfNat α 1] [OfScientific α]
 
 /-- what `compare` makes of the matching `o`: the score for FRECHET, `p = inf` and `p = 0`, `(score/nb_links)**(1/p)` otherwise -/
 def cmpValue (root : Nat → α → α) (ofNat : Nat → α) (mode : Mode) (p : PNorm) (o : Out α) : α :=
@@ -321,10 +367,10 @@ def cmpValue (root : Nat → α → α) (ofNat : Nat → α) (mode : Mode) (p : 
 
 /-- `compare(track1, track2, mode, p, dim)` in the modes DTW / FDTW / FRECHET is `match` followed by `cmpValue`: errors are
 those of `match` -/
-theorem compare_value (sqrt : α → α) (root : Nat → α → α) (ofNat : Nat → α) (big : α) (mode : Mode) (p : PNorm) (dim : Nat)
+theorem compare_value (G : Geom α) (root : Nat → α → α) (ofNat : Nat → α) (big : α) (mode : Mode) (p : PNorm) (dim : DimArg α)
     (t1 t2 : List (Pt α)) :
-    compareTracks sqrt root ofNat big mode p dim t1 t2 =
-      match matchTracks sqrt big mode p dim t1 t2 with
+    compareTracks G root ofNat big mode p dim t1 t2 =
+      match matchTracks G big mode p dim t1 t2 with
       | .ok o => .ok (cmpValue root ofNat mode p o)
       | .error e => .error e := by
   have hfn : ∀ q : PNorm, (PArg.ofNorm q).isFn = false := by
@@ -336,12 +382,12 @@ theorem compare_value (sqrt : α → α) (root : Nat → α → α) (ofNat : Nat
   cases mode with
   | frechet =>
     simp only [Mode.code, Mode.cmpCode]
-    cases warpOn sqrt big false PArg.pyInf dim (TrackObj.fresh t1) t2 with
+    cases warpOn G big false PArg.pyInf dim (TrackObj.fresh t1) t2 with
     | error e => rfl
     | ok o => simp [bind, Except.bind, PArg.pyInf, pure, Except.pure]
   | dtw =>
     simp only [Mode.code, Mode.cmpCode]
-    cases warpOn sqrt big false (PArg.ofNorm p) dim (TrackObj.fresh t1) t2 with
+    cases warpOn G big false (PArg.ofNorm p) dim (TrackObj.fresh t1) t2 with
     | error e => rfl
     | ok o =>
       cases p with
@@ -354,7 +400,7 @@ theorem compare_value (sqrt : α → α) (root : Nat → α → α) (ofNat : Nat
           simp [bind, Except.bind, PArg.ofNorm, pure, Except.pure, hk]
   | fdtw =>
     simp only [Mode.code, Mode.cmpCode]
-    cases warpOn sqrt big true (PArg.ofNorm p) dim (TrackObj.fresh t1) t2 with
+    cases warpOn G big true (PArg.ofNorm p) dim (TrackObj.fresh t1) t2 with
     | error e => rfl
     | ok o =>
       cases p with
@@ -373,26 +419,26 @@ omit [Div α] in
 /-- **the links, read back**: reading the `pair` lists of the track that `_dtw` returns, observation by observation
 (`[(i, j) for j, l in enumerate(pairs) for i in l]`), gives exactly the coupling `S` of `path_valid` / `path_realises`, first
 pair first — same pairs, same order, same multiplicity; hence the number of stored links is `nb_links` -/
-theorem links_read_back (sqrt : α → α) (w : α → α → α) (dim : Nat)
+theorem links_read_back (dist : Pt α → Pt α → α) (w : α → α → α)
     (t1 t2 : List (Pt α)) (h1 : 0 < t1.length) (h2 : 0 < t2.length) :
-    ∃ out, dtw sqrt w dim t1 t2 = some out ∧ readBack out.rows = out.S.reverse ∧ (readBack out.rows).length = out.nbLinks := by
-  obtain ⟨rows, he, hl, hp⟩ := dtw_spec sqrt w dim t1 t2 h1 h2
-  have hbp := walkF_backPath w 0 (Dmat sqrt dim t1 t2) (t1.length + t2.length) (t2.length - 1) (t1.length - 1) (by omega)
-  have hhd := walkF_head w 0 (Dmat sqrt dim t1 t2) (t1.length + t2.length) (t2.length - 1, t1.length - 1)
+    ∃ out, dtw dist w t1 t2 = some out ∧ readBack out.rows = out.S.reverse ∧ (readBack out.rows).length = out.nbLinks := by
+  obtain ⟨rows, he, hl, hp⟩ := dtw_spec dist w t1 t2 h1 h2
+  have hbp := walkF_backPath w 0 (Dmat dist t1 t2) (t1.length + t2.length) (t2.length - 1) (t1.length - 1) (by omega)
+  have hhd := walkF_head w 0 (Dmat dist t1 t2) (t1.length + t2.length) (t2.length - 1, t1.length - 1)
   have hrb := readBack_eq _ t1.length t2.length rows hbp hhd h1 hl hp
   exact ⟨_, he, hrb, by rw [hrb]; simp⟩
 
 omit [Div α] in
 /-- the same for the fast variant, under the hypotheses of `fdtw_equal` -/
-theorem fdtw_links_read_back (sqrt : α → α) (big : α) (w : α → α → α) (dim : Nat) (t1 t2 : List (Pt α))
+theorem fdtw_links_read_back (dist : Pt α → Pt α → α) (big : α) (w : α → α → α) (t1 t2 : List (Pt α))
     (h1 : 0 < t1.length) (h2 : 0 < t2.length)
     (hw : ∀ a b d, a ≤ b → w a d ≤ w b d)
-    (hinf : ∀ a i j, i < t2.length → j < t1.length → a ≤ w a (Dmat sqrt dim t1 t2 i j))
+    (hinf : ∀ a i j, i < t2.length → j < t1.length → a ≤ w a (Dmat dist t1 t2 i j))
     (hbig : ∀ i j i' j', i < t2.length → j < t1.length → i' < t2.length → j' < t1.length →
-      w (T w 0 (Dmat sqrt dim t1 t2) i j) (Dmat sqrt dim t1 t2 i' j') < big) :
-    ∃ out, fdtw sqrt big w dim t1 t2 = some out ∧ readBack out.rows = out.S.reverse ∧
+      w (T w 0 (Dmat dist t1 t2) i j) (Dmat dist t1 t2 i' j') < big) :
+    ∃ out, fdtw dist big w t1 t2 = some out ∧ readBack out.rows = out.S.reverse ∧
       (readBack out.rows).length = out.nbLinks := by
-  obtain ⟨S, rows, he, hbp, hhd, _, hl, hp⟩ := fdtw_spec sqrt big w dim t1 t2 h1 h2 hw hinf hbig
+  obtain ⟨S, rows, he, hbp, hhd, _, hl, hp⟩ := fdtw_spec dist big w t1 t2 h1 h2 hw hinf hbig
   have hrb := readBack_eq S t1.length t2.length rows hbp hhd h1 hl hp
   exact ⟨_, he, hrb, by rw [hrb]; simp⟩
 
@@ -405,23 +451,23 @@ omit [Div α] in
 /-- **`diff`, `ex`, `ey`, read back**: on the track that `_dtw` returns, observation `j` of track1 — whose partners, in coupling
 order, are `partners S.reverse j`, the last of them being `i` — holds exactly that list in `pair`, and in `diff`, `ex`, `ey` the
 distance and the coordinate differences to that **last** partner `track2[i]` (`rowFor`); nothing of an earlier state -/
-theorem features_read_back (sqrt : α → α) (w : α → α → α) (dim : Nat) (t1 t2 : List (Pt α))
+theorem features_read_back (dist : Pt α → Pt α → α) (w : α → α → α) (t1 t2 : List (Pt α))
     (h1 : 0 < t1.length) (h2 : 0 < t2.length) :
-    ∃ out, dtw sqrt w dim t1 t2 = some out ∧
+    ∃ out, dtw dist w t1 t2 = some out ∧
       ∀ j i, j < t1.length → (partners out.S.reverse j).getLast? = some i →
-        out.rows[j]? = some (rowFor sqrt dim t1 t2 j i (partners out.S.reverse j)) := by
-  have hbp := walkF_backPath w 0 (Dmat sqrt dim t1 t2) (t1.length + t2.length) (t2.length - 1) (t1.length - 1) (by omega)
-  have hhd := walkF_head w 0 (Dmat sqrt dim t1 t2) (t1.length + t2.length) (t2.length - 1, t1.length - 1)
+        out.rows[j]? = some (rowFor dist t1 t2 j i (partners out.S.reverse j)) := by
+  have hbp := walkF_backPath w 0 (Dmat dist t1 t2) (t1.length + t2.length) (t2.length - 1) (t1.length - 1) (by omega)
+  have hhd := walkF_head w 0 (Dmat dist t1 t2) (t1.length + t2.length) (t2.length - 1, t1.length - 1)
   have hb := backPath_bounds _ _ _ hbp hhd
-  have he : dtw sqrt w dim t1 t2 = some (Out.mk (T w 0 (Dmat sqrt dim t1 t2) (t2.length - 1) (t1.length - 1))
-      (walkF w 0 (Dmat sqrt dim t1 t2) (t1.length + t2.length) (t2.length - 1, t1.length - 1))
+  have he : dtw dist w t1 t2 = some (Out.mk (T w 0 (Dmat dist t1 t2) (t2.length - 1) (t1.length - 1))
+      (walkF w 0 (Dmat dist t1 t2) (t1.length + t2.length) (t2.length - 1, t1.length - 1))
       ((t1.map (fun _ => ({} : Row α))).mapIdx (fun j r =>
-        (walkF w 0 (Dmat sqrt dim t1 t2) (t1.length + t2.length) (t2.length - 1, t1.length - 1)).reverse.foldl
-          (stepRow sqrt dim t1 t2 j) r))
-      (walkF w 0 (Dmat sqrt dim t1 t2) (t1.length + t2.length) (t2.length - 1, t1.length - 1)).length) := by
+        (walkF w 0 (Dmat dist t1 t2) (t1.length + t2.length) (t2.length - 1, t1.length - 1)).reverse.foldl
+          (stepRow dist t1 t2 j) r))
+      (walkF w 0 (Dmat dist t1 t2) (t1.length + t2.length) (t2.length - 1, t1.length - 1)).length) := by
     unfold dtw dtwOn
     rw [distCols_eq, dtwCore_spec w 0 _ _ _ h1 h2]
-    exact fillAF_rows sqrt dim t1 t2 _ _ (fun s hs => by have := hb s hs; omega)
+    exact fillAF_rows dist t1 t2 _ _ (fun s hs => by have := hb s hs; omega)
   refine ⟨_, he, ?_⟩
   · intro j i hj hlast
     simp only [List.getElem?_mapIdx, List.getElem?_map, List.getElem?_eq_getElem hj, Option.map_some]
@@ -446,7 +492,7 @@ theorem weight_mono (p : PNorm) (a b d : α) (h : a ≤ b) : weight p a d ≤ we
     · exact absurd (lt_of_le_of_lt h h2) h1
     · exact h
 
-/-- `_distance` is symmetric (`abs`, and squares of coordinate differences) -/
+/-- `_distance` on `ENUCoords` is symmetric (`abs`, and squares of coordinate differences), for any `sqrt` -/
 theorem distance_symm (sqrt : α → α) (dim : Nat) (p q : Pt α) : distance sqrt dim p q = distance sqrt dim q p := by
   unfold distance
   by_cases h1 : dim = 1
@@ -470,48 +516,149 @@ theorem distance_symm (sqrt : α → α) (dim : Nat) (p q : Pt α) : distance sq
     · simp only [h2, if_true]; congr 1; ring
     · simp only [h2, if_false]; congr 1; ring
 
+omit [LinearOrder α] [IsStrictOrderedRing α] in
+/-- `ECEFCoords.distanceTo` is symmetric (squares of coordinate differences), for any `sqrt` -/
+theorem ecefDistance_symm (T : Geo.Trig α) (a b : Geo.V3 α) : ecefDistance T a b = ecefDistance T b a := by
+  simp only [ecefDistance]
+  congr 1
+  ring
+
+omit [LinearOrder α] [IsStrictOrderedRing α] in
+/-- `GeoCoords.distanceTo` (distance of the ECEF images) is symmetric, whatever `sin`, `cos`, `sqrt`, `pow` compute -/
+theorem geoDistance3D_symm (T : Geo.Trig α) (a b : Geo.V3 α) : geoDistance3D T a b = geoDistance3D T b a :=
+  ecefDistance_symm T _ _
+
+/-- **`_distance` is symmetric** on `ENUCoords` for `dim = 1, 2, 3` and on `GeoCoords` / `ECEFCoords` for `dim = 3`. (Not for
+`dim = 2` on `GeoCoords`: `distance2DTo` projects on the horizontal plane of its *argument*, and the horizontal planes of two
+points differ; nor, of course, for an arbitrary callable `dim`.) -/
+theorem distanceOf_symm (G : Geom α) (d : Nat) (h : G.cls = Coords.enu ∨ d = 3) (dist : Pt α → Pt α → α)
+    (hd : distanceOf G (.num d) = .ok dist) (p q : Pt α) : dist p q = dist q p := by
+  simp only [distanceOf] at hd
+  by_cases hr : d = 1 ∨ d = 2 ∨ d = 3
+  · rw [if_pos hr] at hd
+    cases hc : G.cls with
+    | enu =>
+      rw [hc] at hd
+      injection hd with hd
+      subst hd
+      exact distance_symm _ _ _ _
+    | geo =>
+      have h3 : d = 3 := by
+        rcases h with h | h
+        · rw [hc] at h; cases h
+        · exact h
+      subst h3
+      rw [hc] at hd
+      simp only [show ¬ (3 = 1) by decide, show ¬ (3 = 2) by decide, if_false] at hd
+      injection hd with hd
+      subst hd
+      exact geoDistance3D_symm _ _ _
+    | ecef =>
+      have h3 : d = 3 := by
+        rcases h with h | h
+        · rw [hc] at h; cases h
+        · exact h
+      subst h3
+      rw [hc] at hd
+      simp only [if_true] at hd
+      injection hd with hd
+      subst hd
+      exact ecefDistance_symm _ _ _
+  · rw [if_neg hr] at hd
+    cases hd
+
 /-- the accumulation that `match` uses in the modes DTW (`p`) and FRECHET (`inf`) -/
 def weightOf (mode : Mode) (p : PNorm) : α → α → α := weight (if mode = Mode.frechet then PNorm.inf else p)
 
-/-- **C18 for `match(track1, track2, mode = DTW | FRECHET, p, dim)`**, all at once, for every pair of non-empty tracks,
-`p ∈ {0, 1, 2, 3, …, inf}` (a Python number; every other recognised form of `p` is the same call: `match_any_form`),
-`dim ∈ {1, 2, 3}`: the call succeeds; the reported score is a lower bound of the accumulated cost
-(`Σ d^p`, or `max d` for `p = inf` / FRECHET) of every monotone unit-step coupling from the first to the last pair;
-the returned `S` is such a coupling and its accumulated cost **is** the score; `nb_links` is its length and the `pair`
-feature lists exactly its pairs, with no observation of either track left out; and `match(track2, track1)` reports
-the same score. -/
-theorem match_correct (sqrt : α → α) (big : α) (mode : Mode) (hm : mode ≠ Mode.fdtw) (p : PNorm) (dim : Nat)
+omit [IsStrictOrderedRing α] in
+/-- in the modes DTW / FRECHET `match` on tracks without features is `_dtw` with the accumulation of the mode -/
+theorem matchTracks_of_dtw (G : Geom α) (big : α) (mode : Mode) (hm : mode ≠ Mode.fdtw) (p : PNorm) (dim : DimArg α)
+    (dist : Pt α → Pt α → α) (hd : distanceOf G dim = .ok dist) (u v : List (Pt α)) (hu : 0 < u.length) (hv : 0 < v.length)
+    (o : Out α) (ho : dtw dist (weightOf mode p) u v = some o) : matchTracks G big mode p dim u v = .ok o := by
+  have hne : u.isEmpty = false := by cases u with | nil => simp at hu | cons _ _ => rfl
+  have hne2 : v.isEmpty = false := by cases v with | nil => simp at hv | cons _ _ => rfl
+  rw [matchTracks_unfold G big mode p dim dist hd]
+  unfold weightOf at ho
+  cases mode with
+  | fdtw => exact absurd rfl hm
+  | dtw => simp at ho; simp [hne, hne2, ho]
+  | frechet => simp at ho; simp [hne, hne2, ho]
+
+/-- **C18 for `match(track1, track2, mode = DTW | FRECHET, p, dim)` without the swap clause**, for every pair of non-empty
+tracks, `p ∈ {0, 1, 2, 3, …, inf}` (a Python number; every other recognised form of `p` is the same call: `match_any_form`), every
+class of positions and every `dim` on which `_distance` is defined (`hd`: `dim ∈ {1, 2, 3}` on `ENUCoords`, `{2, 3}` on
+`GeoCoords`, `3` on `ECEFCoords`, any callable — nothing is assumed of the distance it computes): the call succeeds; the
+reported score is a lower bound of the accumulated cost (`Σ d^p`, or `max d` for `p = inf` / FRECHET) of every monotone unit-step
+coupling from the first to the last pair; the returned `S` is such a coupling and its accumulated cost **is** the score;
+`nb_links` is its length and the `pair` feature lists exactly its pairs, with no observation of either track left out. -/
+theorem match_onesided (G : Geom α) (big : α) (mode : Mode) (hm : mode ≠ Mode.fdtw) (p : PNorm) (dim : DimArg α)
+    (dist : Pt α → Pt α → α) (hd : distanceOf G dim = .ok dist)
     (t1 t2 : List (Pt α)) (h1 : 0 < t1.length) (h2 : 0 < t2.length) :
-    ∃ out out', matchTracks sqrt big mode p dim t1 t2 = .ok out ∧ matchTracks sqrt big mode p dim t2 t1 = .ok out' ∧
-      (∀ S, IsCouplingOf t1.length t2.length S → out.score ≤ costBack (weightOf mode p) 0 (Dmat sqrt dim t1 t2) S) ∧
+    ∃ out, matchTracks G big mode p dim t1 t2 = .ok out ∧ dtw dist (weightOf mode p) t1 t2 = some out ∧
+      (∀ S, IsCouplingOf t1.length t2.length S → out.score ≤ costBack (weightOf mode p) 0 (Dmat dist t1 t2) S) ∧
       IsCouplingOf t1.length t2.length out.S ∧
-      costBack (weightOf mode p) 0 (Dmat sqrt dim t1 t2) out.S = out.score ∧
+      costBack (weightOf mode p) 0 (Dmat dist t1 t2) out.S = out.score ∧
+      out.nbLinks = out.S.length ∧
+      (∀ j, j < t1.length → ∃ r : Row α, out.rows[j]? = some r ∧ (∀ i, i ∈ r.pair ↔ (i, j) ∈ out.S) ∧ r.pair ≠ []) ∧
+      (∀ i, i < t2.length → ∃ (j : Nat) (r : Row α), out.rows[j]? = some r ∧ i ∈ r.pair) := by
+  have hw : ∀ a b d : α, a ≤ b → weightOf mode p a d ≤ weightOf mode p b d := fun a b d h => weight_mono _ a b d h
+  obtain ⟨out, he, hlow, _⟩ := table_optimal dist (weightOf mode p) hw t1 t2 h1 h2
+  obtain ⟨out2, he2, hcoup, hnb, _, _, hrows, hcov⟩ := path_valid dist (weightOf mode p) t1 t2 h1 h2
+  obtain ⟨out3, he3, hcost⟩ := path_realises dist (weightOf mode p) t1 t2 h1 h2
+  rw [he] at he2 he3
+  cases Option.some.inj he2
+  cases Option.some.inj he3
+  exact ⟨out, matchTracks_of_dtw G big mode hm p dim dist hd t1 t2 h1 h2 out he, he, hlow, hcoup, hcost, hnb, hrows, hcov⟩
+
+/-- **C18 for `match(track1, track2, mode = DTW | FRECHET, p, dim)`**, all at once: `match_onesided`, and — when the point
+distance is symmetric (`distanceOf_symm`: `ENUCoords` with `dim ∈ {1, 2, 3}`, `GeoCoords` / `ECEFCoords` with `dim = 3`) —
+`match(track2, track1)` reports the same score. -/
+theorem match_correct (G : Geom α) (big : α) (mode : Mode) (hm : mode ≠ Mode.fdtw) (p : PNorm) (dim : DimArg α)
+    (dist : Pt α → Pt α → α) (hd : distanceOf G dim = .ok dist) (hsymm : ∀ p q, dist p q = dist q p)
+    (t1 t2 : List (Pt α)) (h1 : 0 < t1.length) (h2 : 0 < t2.length) :
+    ∃ out out', matchTracks G big mode p dim t1 t2 = .ok out ∧ matchTracks G big mode p dim t2 t1 = .ok out' ∧
+      (∀ S, IsCouplingOf t1.length t2.length S → out.score ≤ costBack (weightOf mode p) 0 (Dmat dist t1 t2) S) ∧
+      IsCouplingOf t1.length t2.length out.S ∧
+      costBack (weightOf mode p) 0 (Dmat dist t1 t2) out.S = out.score ∧
       out.nbLinks = out.S.length ∧
       (∀ j, j < t1.length → ∃ r : Row α, out.rows[j]? = some r ∧ (∀ i, i ∈ r.pair ↔ (i, j) ∈ out.S) ∧ r.pair ≠ []) ∧
       (∀ i, i < t2.length → ∃ (j : Nat) (r : Row α), out.rows[j]? = some r ∧ i ∈ r.pair) ∧
       out'.score = out.score := by
-  have hmt : ∀ (u v : List (Pt α)), 0 < u.length → ∀ o, dtw sqrt (weightOf mode p) dim u v = some o →
-      matchTracks sqrt big mode p dim u v = .ok o := by
-    intro u v hu o ho
-    have hne : u.isEmpty = false := by cases u with | nil => simp at hu | cons _ _ => rfl
-    rw [matchTracks_unfold]
-    unfold weightOf at ho
-    cases mode with
-    | fdtw => exact absurd rfl hm
-    | dtw => simp at ho; simp [hne, ho]
-    | frechet => simp at ho; simp [hne, ho]
-  have hw : ∀ a b d : α, a ≤ b → weightOf mode p a d ≤ weightOf mode p b d := fun a b d h => weight_mono _ a b d h
-  obtain ⟨out, he, hlow, _⟩ := table_optimal sqrt (weightOf mode p) hw dim t1 t2 h1 h2
-  obtain ⟨out2, he2, hcoup, hnb, _, _, hrows, hcov⟩ := path_valid sqrt (weightOf mode p) dim t1 t2 h1 h2
-  obtain ⟨out3, he3, hcost⟩ := path_realises sqrt (weightOf mode p) dim t1 t2 h1 h2
-  obtain ⟨o12, o21, e12, e21, hsym⟩ := score_symmetric sqrt (weightOf mode p) dim (distance_symm sqrt dim) t1 t2 h1 h2
-  rw [he] at he2 he3 e12
-  cases Option.some.inj he2
-  cases Option.some.inj he3
+  obtain ⟨out, e, he, hlow, hcoup, hcost, hnb, hrows, hcov⟩ := match_onesided G big mode hm p dim dist hd t1 t2 h1 h2
+  obtain ⟨o12, o21, e12, e21, hsym⟩ := score_symmetric dist (weightOf mode p) hsymm t1 t2 h1 h2
+  rw [he] at e12
   cases Option.some.inj e12
-  exact ⟨out, o21, hmt t1 t2 h1 out he, hmt t2 t1 h2 o21 e21, hlow, hcoup, hcost, hnb, hrows, hcov, hsym.symm⟩
+  exact ⟨out, o21, e, matchTracks_of_dtw G big mode hm p dim dist hd t2 t1 h2 h1 o21 e21, hlow, hcoup, hcost, hnb, hrows, hcov,
+    hsym.symm⟩
 
-/-- `_distance` is non-negative when `sqrt` is -/
+/-- **the statement on `ENUCoords` tracks** (`dim ∈ {1, 2, 3}`, any `sqrt`): `match_correct` with its two hypotheses discharged -/
+theorem match_correct_enu (G : Geom α) (hc : G.cls = Coords.enu) (big : α) (mode : Mode) (hm : mode ≠ Mode.fdtw) (p : PNorm)
+    (d : Nat) (hd : d = 1 ∨ d = 2 ∨ d = 3) (t1 t2 : List (Pt α)) (h1 : 0 < t1.length) (h2 : 0 < t2.length) :
+    ∃ out out', matchTracks G big mode p (.num d) t1 t2 = .ok out ∧ matchTracks G big mode p (.num d) t2 t1 = .ok out' ∧
+      (∀ S, IsCouplingOf t1.length t2.length S →
+        out.score ≤ costBack (weightOf mode p) 0 (Dmat (distance G.T.sqrt d) t1 t2) S) ∧
+      IsCouplingOf t1.length t2.length out.S ∧
+      costBack (weightOf mode p) 0 (Dmat (distance G.T.sqrt d) t1 t2) out.S = out.score ∧
+      out.nbLinks = out.S.length ∧
+      (∀ j, j < t1.length → ∃ r : Row α, out.rows[j]? = some r ∧ (∀ i, i ∈ r.pair ↔ (i, j) ∈ out.S) ∧ r.pair ≠ []) ∧
+      (∀ i, i < t2.length → ∃ (j : Nat) (r : Row α), out.rows[j]? = some r ∧ i ∈ r.pair) ∧
+      out'.score = out.score :=
+  match_correct G big mode hm p (.num d) _ (distance_enu G hc d hd) (distance_symm _ _) t1 t2 h1 h2
+
+/-- **the statement on `GeoCoords` / `ECEFCoords` tracks with `dim = 3`** (distance of the ECEF images): the swap clause holds too -/
+theorem match_correct_3d (G : Geom α) (big : α) (mode : Mode) (hm : mode ≠ Mode.fdtw) (p : PNorm)
+    (dist : Pt α → Pt α → α) (hd : distanceOf G (.num 3) = .ok dist)
+    (t1 t2 : List (Pt α)) (h1 : 0 < t1.length) (h2 : 0 < t2.length) :
+    ∃ out out', matchTracks G big mode p (.num 3) t1 t2 = .ok out ∧ matchTracks G big mode p (.num 3) t2 t1 = .ok out' ∧
+      (∀ S, IsCouplingOf t1.length t2.length S → out.score ≤ costBack (weightOf mode p) 0 (Dmat dist t1 t2) S) ∧
+      IsCouplingOf t1.length t2.length out.S ∧
+      costBack (weightOf mode p) 0 (Dmat dist t1 t2) out.S = out.score ∧
+      out'.score = out.score := by
+  obtain ⟨out, out', e, e', hlow, hc, hcost, _, _, _, hs⟩ :=
+    match_correct G big mode hm p (.num 3) dist hd (distanceOf_symm G 3 (Or.inr rfl) dist hd) t1 t2 h1 h2
+  exact ⟨out, out', e, e', hlow, hc, hcost, hs⟩
+
+/-- `_distance` on `ENUCoords` is non-negative when `sqrt` is -/
 theorem distance_nonneg (sqrt : α → α) (hsqrt : ∀ x, 0 ≤ sqrt x) (dim : Nat) (p q : Pt α) :
     0 ≤ distance sqrt dim p q := by
   unfold distance
@@ -526,6 +673,46 @@ theorem distance_nonneg (sqrt : α → α) (hsqrt : ∀ x, 0 ≤ sqrt x) (dim : 
     by_cases h2 : dim = 2
     · simp only [h2, if_true]; exact hsqrt _
     · simp only [h2, if_false]; exact hsqrt _
+
+/-- **`_distance` is non-negative** for every numeric `dim` on every class of positions, when `sqrt` is -/
+theorem distanceOf_nonneg (G : Geom α) (hsqrt : ∀ x, 0 ≤ G.T.sqrt x) (d : Nat) (dist : Pt α → Pt α → α)
+    (hd : distanceOf G (.num d) = .ok dist) (p q : Pt α) : 0 ≤ dist p q := by
+  simp only [distanceOf] at hd
+  by_cases hr : d = 1 ∨ d = 2 ∨ d = 3
+  · rw [if_pos hr] at hd
+    cases hc : G.cls with
+    | enu =>
+      rw [hc] at hd
+      injection hd with hd
+      subst hd
+      exact distance_nonneg _ hsqrt _ _ _
+    | geo =>
+      rw [hc] at hd
+      by_cases d1 : d = 1
+      · rw [if_pos d1] at hd; cases hd
+      · rw [if_neg d1] at hd
+        by_cases d2 : d = 2
+        · rw [if_pos d2] at hd
+          injection hd with hd
+          subst hd
+          simp only [geoDistance2D]
+          exact hsqrt _
+        · rw [if_neg d2] at hd
+          injection hd with hd
+          subst hd
+          simp only [geoDistance3D, ecefDistance]
+          exact hsqrt _
+    | ecef =>
+      rw [hc] at hd
+      by_cases d3 : d = 3
+      · rw [if_pos d3] at hd
+        injection hd with hd
+        subst hd
+        simp only [ecefDistance]
+        exact hsqrt _
+      · rw [if_neg d3] at hd; cases hd
+  · rw [if_neg hr] at hd
+    cases hd
 
 /-- `B**k ≥ 0` for `B ≥ 0` -/
 theorem npow_nonneg (d : α) (hd : 0 ≤ d) : ∀ k, 0 ≤ npow d k
@@ -552,104 +739,180 @@ theorem weight_infl (p : PNorm) (a d : α) (hd : 0 ≤ d) : a ≤ weight p a d :
     · simp only [h, if_false]; exact le_rfl
 
 /-- **C18 for the fast variant, `match(track1, track2, mode = FDTW, p, dim)`**: for every pair of non-empty tracks,
-`p ∈ {0, 1, 2, 3, …, inf}`, `dim ∈ {1, 2, 3}`, a non-negative `sqrt`, and `big` (1e300 in the code) above every candidate cost:
-the call succeeds and reports **the same score as `mode = DTW`**; the returned `S` is a monotone unit-step coupling
-from the first to the last pair whose accumulated cost is that score; `nb_links` and the `pair` feature describe it and
-no observation of either track is left out. -/
-theorem match_fdtw_correct (sqrt : α → α) (hsqrt : ∀ x, 0 ≤ sqrt x) (big : α) (p : PNorm) (dim : Nat)
+`p ∈ {0, 1, 2, 3, …, inf}`, every class of positions and `dim` on which `_distance` is defined and non-negative (`hnn`; by
+`distanceOf_nonneg` every numeric `dim` on every class when `sqrt` is non-negative), and `big` (1e300 in the code) above every
+candidate cost: the call succeeds and reports **the same score as `mode = DTW`**; the returned `S` is a monotone unit-step
+coupling from the first to the last pair whose accumulated cost is that score; `nb_links` and the `pair` feature describe it
+and no observation of either track is left out. -/
+theorem match_fdtw_correct (G : Geom α) (big : α) (p : PNorm) (dim : DimArg α)
+    (dist : Pt α → Pt α → α) (hd : distanceOf G dim = .ok dist) (hnn : ∀ p q, 0 ≤ dist p q)
     (t1 t2 : List (Pt α)) (h1 : 0 < t1.length) (h2 : 0 < t2.length)
     (hbig : ∀ i j i' j', i < t2.length → j < t1.length → i' < t2.length → j' < t1.length →
-      weight p (T (weight p) 0 (Dmat sqrt dim t1 t2) i j) (Dmat sqrt dim t1 t2 i' j') < big) :
-    ∃ out outd, matchTracks sqrt big Mode.fdtw p dim t1 t2 = .ok out ∧ matchTracks sqrt big Mode.dtw p dim t1 t2 = .ok outd ∧
+      weight p (T (weight p) 0 (Dmat dist t1 t2) i j) (Dmat dist t1 t2 i' j') < big) :
+    ∃ out outd, matchTracks G big Mode.fdtw p dim t1 t2 = .ok out ∧ matchTracks G big Mode.dtw p dim t1 t2 = .ok outd ∧
       out.score = outd.score ∧
       IsCouplingOf t1.length t2.length out.S ∧
-      costBack (weight p) 0 (Dmat sqrt dim t1 t2) out.S = out.score ∧
+      costBack (weight p) 0 (Dmat dist t1 t2) out.S = out.score ∧
       out.nbLinks = out.S.length ∧
       (∀ j, j < t1.length → ∃ r : Row α, out.rows[j]? = some r ∧ (∀ i, i ∈ r.pair ↔ (i, j) ∈ out.S) ∧ r.pair ≠ []) ∧
       (∀ i, i < t2.length → ∃ (j : Nat) (r : Row α), out.rows[j]? = some r ∧ i ∈ r.pair) := by
   have hw : ∀ a b d : α, a ≤ b → weight p a d ≤ weight p b d := fun a b d h => weight_mono p a b d h
-  have hinf : ∀ (a : α) i j, i < t2.length → j < t1.length → a ≤ weight p a (Dmat sqrt dim t1 t2 i j) :=
-    fun a i j _ _ => weight_infl p a _ (distance_nonneg sqrt hsqrt dim _ _)
-  obtain ⟨od, ofast, e1, e2, hs⟩ := fdtw_equal sqrt big (weight p) dim t1 t2 h1 h2 hw hinf hbig
-  obtain ⟨out, e3, hc, hcost, hnb, _, _, hr, hcov⟩ := fdtw_path sqrt big (weight p) dim t1 t2 h1 h2 hw hinf hbig
+  have hinf : ∀ (a : α) i j, i < t2.length → j < t1.length → a ≤ weight p a (Dmat dist t1 t2 i j) :=
+    fun a i j _ _ => weight_infl p a _ (hnn _ _)
+  obtain ⟨od, ofast, e1, e2, hs⟩ := fdtw_equal dist big (weight p) t1 t2 h1 h2 hw hinf hbig
+  obtain ⟨out, e3, hc, hcost, hnb, _, _, hr, hcov⟩ := fdtw_path dist big (weight p) t1 t2 h1 h2 hw hinf hbig
   rw [e2] at e3
   cases Option.some.inj e3
   have hne : t1.isEmpty = false := by cases t1 with | nil => simp at h1 | cons _ _ => rfl
+  have hne2 : t2.isEmpty = false := by cases t2 with | nil => simp at h2 | cons _ _ => rfl
   refine ⟨ofast, od, ?_, ?_, hs, hc, hcost, hnb, hr, hcov⟩
-  · rw [matchTracks_unfold]; simp [hne, e2]
-  · rw [matchTracks_unfold]; simp [hne, e1]
+  · rw [matchTracks_unfold G big _ p dim dist hd]; simp [hne, hne2, e2]
+  · rw [matchTracks_unfold G big _ p dim dist hd]; simp [hne, hne2, e1]
 
 /-- the same for the fast variant, under the hypotheses of `match_fdtw_correct` -/
-theorem match_fdtw_history (sqrt : α → α) (hsqrt : ∀ x, 0 ≤ sqrt x) (big : α) (p : PNorm) (dim : Nat)
+theorem match_fdtw_history (G : Geom α) (big : α) (p : PNorm) (dim : DimArg α)
+    (dist : Pt α → Pt α → α) (hd : distanceOf G dim = .ok dist) (hnn : ∀ p q, 0 ≤ dist p q)
     (t1 t2 : List (Pt α)) (h1 : 0 < t1.length) (h2 : 0 < t2.length)
     (hbig : ∀ i j i' j', i < t2.length → j < t1.length → i' < t2.length → j' < t1.length →
-      weight p (T (weight p) 0 (Dmat sqrt dim t1 t2) i j) (Dmat sqrt dim t1 t2 i' j') < big)
+      weight p (T (weight p) 0 (Dmat dist t1 t2) i j) (Dmat dist t1 t2 i' j') < big)
     (rows0 : List (Row α)) (hl : rows0.length = t1.length) :
-    matchCall sqrt big 3 (PArg.ofNorm p) dim { pts := t1, rows := rows0 } t2 = matchTracks sqrt big Mode.fdtw p dim t1 t2 := by
-  obtain ⟨out, outd, e1, _, _, hc, _⟩ := match_fdtw_correct sqrt hsqrt big p dim t1 t2 h1 h2 hbig
+    matchCall G big 3 (PArg.ofNorm p) dim { pts := t1, rows := rows0 } t2 = matchTracks G big Mode.fdtw p dim t1 t2 := by
+  obtain ⟨out, outd, e1, _, _, hc, _⟩ := match_fdtw_correct G big p dim dist hd hnn t1 t2 h1 h2 hbig
   have hne : t1.isEmpty = false := by cases t1 with | nil => simp at h1 | cons _ _ => rfl
-  have hfd : fdtw sqrt big (weight p) dim t1 t2 = some out := by
-    rw [matchTracks_unfold] at e1
-    simp only [hne, Bool.false_eq_true, if_false] at e1
-    cases hx : fdtw sqrt big (weight p) dim t1 t2 with
+  have hne2 : t2.isEmpty = false := by cases t2 with | nil => simp at h2 | cons _ _ => rfl
+  have hfd : fdtw dist big (weight p) t1 t2 = some out := by
+    rw [matchTracks_unfold G big _ p dim dist hd] at e1
+    simp only [hne, hne2, Bool.false_eq_true, if_false] at e1
+    cases hx : fdtw dist big (weight p) t1 t2 with
     | none => rw [hx] at e1; cases e1
     | some o => rw [hx] at e1; cases e1; rfl
   rw [e1]
   unfold matchCall warpOn
   rw [p2weight_ofNorm]
-  simp [bind, Except.bind, hne, fdtwOn_of_fdtw sqrt big (weight p) dim rows0 t1 t2 hl h1 h2 out hfd hc.1 hc.2]
+  simp [bind, Except.bind, hne, hne2, hd, fdtwOn_of_fdtw dist big (weight p) rows0 t1 t2 hl h1 h2 out hfd hc.1 hc.2]
 
 
-/-- **`compare` in the modes DTW and FRECHET**, for every pair of non-empty tracks over an ordered field: the call succeeds and
-returns `cmpValue` of the matching that `match` returns, which is optimal (`match_correct`): for FRECHET / `p = inf` the value
+/-- **`compare` in the modes DTW and FRECHET**, for every pair of non-empty tracks over an ordered field, every class of positions
+and `dim` on which `_distance` is defined: the call succeeds and
+returns `cmpValue` of the matching that `match` returns, which is optimal (`match_onesided`): for FRECHET / `p = inf` the value
 **is** the least, over all couplings, of the largest link (the discrete Fréchet distance); for a finite `p ≥ 1` it is
 `(score/nb_links)**(1/p)` with `score` the least `Σ d^p` over all couplings and `nb_links` the number of links of the returned
 optimal coupling, between `max(n1, n2)` and `n1 + n2 - 1` -/
-theorem compare_correct (sqrt : α → α) (root : Nat → α → α) (ofNat : Nat → α) (big : α) (mode : Mode)
-    (hm : mode ≠ Mode.fdtw) (p : PNorm) (dim : Nat) (t1 t2 : List (Pt α)) (h1 : 0 < t1.length) (h2 : 0 < t2.length) :
-    ∃ out, matchTracks sqrt big mode p dim t1 t2 = .ok out ∧
-      compareTracks sqrt root ofNat big mode p dim t1 t2 = .ok (cmpValue root ofNat mode p out) ∧
-      (∀ S, IsCouplingOf t1.length t2.length S → out.score ≤ costBack (weightOf mode p) 0 (Dmat sqrt dim t1 t2) S) ∧
+theorem compare_correct (G : Geom α) (root : Nat → α → α) (ofNat : Nat → α) (big : α) (mode : Mode)
+    (hm : mode ≠ Mode.fdtw) (p : PNorm) (dim : DimArg α) (dist : Pt α → Pt α → α) (hd : distanceOf G dim = .ok dist)
+    (t1 t2 : List (Pt α)) (h1 : 0 < t1.length) (h2 : 0 < t2.length) :
+    ∃ out, matchTracks G big mode p dim t1 t2 = .ok out ∧
+      compareTracks G root ofNat big mode p dim t1 t2 = .ok (cmpValue root ofNat mode p out) ∧
+      (∀ S, IsCouplingOf t1.length t2.length S → out.score ≤ costBack (weightOf mode p) 0 (Dmat dist t1 t2) S) ∧
       IsCouplingOf t1.length t2.length out.S ∧
-      costBack (weightOf mode p) 0 (Dmat sqrt dim t1 t2) out.S = out.score ∧
+      costBack (weightOf mode p) 0 (Dmat dist t1 t2) out.S = out.score ∧
       out.nbLinks = out.S.length ∧
       t1.length ≤ out.nbLinks ∧ t2.length ≤ out.nbLinks ∧ out.nbLinks + 1 ≤ t1.length + t2.length := by
-  obtain ⟨out, _, e, _, hlow, hc, hcost, hnb, _, _, _⟩ := match_correct sqrt big mode hm p dim t1 t2 h1 h2
+  obtain ⟨out, e, _, hlow, hc, hcost, hnb, _, _⟩ := match_onesided G big mode hm p dim dist hd t1 t2 h1 h2
   have hlen := backPath_length out.S _ _ hc.1 hc.2
   refine ⟨out, e, ?_, hlow, hc, hcost, hnb, by omega, by omega, by omega⟩
   rw [compare_value, e]
 
-/-- accumulated costs are non-negative when `sqrt` is -/
-theorem costBack_nonneg (sqrt : α → α) (hsqrt : ∀ x, 0 ≤ sqrt x) (p : PNorm) (dim : Nat) (t1 t2 : List (Pt α)) :
-    ∀ S : List (Nat × Nat), 0 ≤ costBack (weight p) 0 (Dmat sqrt dim t1 t2) S
+/-- **`compare` in the mode FDTW** (`MODE_COMPARISON_FDTW = 107`), under the hypotheses of `match_fdtw_correct`: the call succeeds
+and returns `cmpValue` of the matching that `match(…, FDTW)` returns, whose score is the score of the mode DTW — the optimum
+(`match_onesided`) — and whose `nb_links` is the length of a coupling realising it: for `p = inf` the value is the discrete
+Fréchet distance, for a finite `p ≥ 1` it is `(score/nb_links)**(1/p)` with `max(n1, n2) ≤ nb_links ≤ n1 + n2 - 1` -/
+theorem compare_fdtw_correct (G : Geom α) (root : Nat → α → α) (ofNat : Nat → α) (big : α) (p : PNorm) (dim : DimArg α)
+    (dist : Pt α → Pt α → α) (hd : distanceOf G dim = .ok dist) (hnn : ∀ p q, 0 ≤ dist p q)
+    (t1 t2 : List (Pt α)) (h1 : 0 < t1.length) (h2 : 0 < t2.length)
+    (hbig : ∀ i j i' j', i < t2.length → j < t1.length → i' < t2.length → j' < t1.length →
+      weight p (T (weight p) 0 (Dmat dist t1 t2) i j) (Dmat dist t1 t2 i' j') < big) :
+    ∃ out, matchTracks G big Mode.fdtw p dim t1 t2 = .ok out ∧
+      compareTracks G root ofNat big Mode.fdtw p dim t1 t2 = .ok (cmpValue root ofNat Mode.fdtw p out) ∧
+      (∀ S, IsCouplingOf t1.length t2.length S → out.score ≤ costBack (weight p) 0 (Dmat dist t1 t2) S) ∧
+      IsCouplingOf t1.length t2.length out.S ∧
+      costBack (weight p) 0 (Dmat dist t1 t2) out.S = out.score ∧
+      out.nbLinks = out.S.length ∧
+      t1.length ≤ out.nbLinks ∧ t2.length ≤ out.nbLinks ∧ out.nbLinks + 1 ≤ t1.length + t2.length := by
+  obtain ⟨out, outd, e, ed, hs, hc, hcost, hnb, _, _⟩ := match_fdtw_correct G big p dim dist hd hnn t1 t2 h1 h2 hbig
+  obtain ⟨outd', ed', _, hlow, _⟩ := match_onesided G big Mode.dtw (by decide) p dim dist hd t1 t2 h1 h2
+  rw [ed] at ed'
+  cases Except.ok.inj ed'
+  have hw : weightOf (α := α) Mode.dtw p = weight p := by unfold weightOf; simp
+  rw [hw] at hlow
+  have hlen := backPath_length out.S _ _ hc.1 hc.2
+  refine ⟨out, e, ?_, ?_, hc, hcost, hnb, by omega, by omega, by omega⟩
+  · rw [compare_value, e]
+  · intro S hS
+    rw [hs]
+    exact hlow S hS
+
+/-- accumulated costs are non-negative when the point distance is -/
+theorem costBack_nonneg (dist : Pt α → Pt α → α) (hnn : ∀ p q, 0 ≤ dist p q) (p : PNorm) (t1 t2 : List (Pt α)) :
+    ∀ S : List (Nat × Nat), 0 ≤ costBack (weight p) 0 (Dmat dist t1 t2) S
   | [] => le_refl _
   | _ :: rest =>
-    le_trans (costBack_nonneg sqrt hsqrt p dim t1 t2 rest)
-      (weight_infl p _ _ (distance_nonneg sqrt hsqrt dim _ _))
+    le_trans (costBack_nonneg dist hnn p t1 t2 rest)
+      (weight_infl p _ _ (hnn _ _))
 
 /-- **`compare(DTW, p = k)` is the `k`-th root of the mean of `d^k` along the returned optimal coupling**: with exact
 arithmetic — `root k` a genuine `k`-th root on non-negative numbers, `ofNat` the cast — `compare(...)^k * nb_links` is the
 score, i.e. the least `Σ d^k` over all couplings. (Needs exact arithmetic: in floats `x**(1.0/k)` is rounded, and for
 `k = 3` as `numpy.float16/32` the exponent `1.0/p` itself is rounded to that precision.) -/
-theorem compare_mean_power (sqrt : α → α) (hsqrt : ∀ x, 0 ≤ sqrt x) (root : Nat → α → α) (big : α) (k : Nat)
-    (hroot : ∀ x : α, 0 ≤ x → npow (root (k+1) x) (k+1) = x) (dim : Nat)
+theorem compare_mean_power (G : Geom α) (root : Nat → α → α) (big : α) (k : Nat)
+    (hroot : ∀ x : α, 0 ≤ x → npow (root (k+1) x) (k+1) = x) (dim : DimArg α)
+    (dist : Pt α → Pt α → α) (hd : distanceOf G dim = .ok dist) (hnn : ∀ p q, 0 ≤ dist p q)
     (t1 t2 : List (Pt α)) (h1 : 0 < t1.length) (h2 : 0 < t2.length) :
-    ∃ out v, matchTracks sqrt big Mode.dtw (.nat (k+1)) dim t1 t2 = .ok out ∧
-      compareTracks sqrt root (fun n => (n : α)) big Mode.dtw (.nat (k+1)) dim t1 t2 = .ok v ∧
+    ∃ out v, matchTracks G big Mode.dtw (.nat (k+1)) dim t1 t2 = .ok out ∧
+      compareTracks G root (fun n => (n : α)) big Mode.dtw (.nat (k+1)) dim t1 t2 = .ok v ∧
       npow v (k+1) * (out.nbLinks : α) = out.score ∧
-      (∀ S, IsCouplingOf t1.length t2.length S → out.score ≤ costBack (weight (.nat (k+1))) 0 (Dmat sqrt dim t1 t2) S) := by
+      (∀ S, IsCouplingOf t1.length t2.length S → out.score ≤ costBack (weight (.nat (k+1))) 0 (Dmat dist t1 t2) S) := by
   obtain ⟨out, e, ec, hlow, _, hcost, _, hn1, _, _⟩ :=
-    compare_correct sqrt root (fun n => (n : α)) big Mode.dtw (by decide) (.nat (k+1)) dim t1 t2 h1 h2
+    compare_correct G root (fun n => (n : α)) big Mode.dtw (by decide) (.nat (k+1)) dim dist hd t1 t2 h1 h2
   have hw : weightOf (α := α) Mode.dtw (.nat (k+1)) = weight (.nat (k+1)) := by unfold weightOf; simp
   rw [hw] at hcost hlow
   refine ⟨out, _, e, ec, ?_, hlow⟩
   have hpos : (0 : α) < (out.nbLinks : α) := by exact_mod_cast (by omega : 0 < out.nbLinks)
-  have hs : 0 ≤ out.score := by rw [← hcost]; exact costBack_nonneg sqrt hsqrt _ dim t1 t2 _
+  have hs : 0 ≤ out.score := by rw [← hcost]; exact costBack_nonneg dist hnn _ t1 t2 _
   have hv : cmpValue root (fun n => (n : α)) Mode.dtw (.nat (k+1)) out = root (k+1) (out.score / (out.nbLinks : α)) := by
     unfold cmpValue; simp
   rw [hv, hroot _ (div_nonneg hs (le_of_lt hpos))]
   exact div_mul_cancel₀ _ (ne_of_gt hpos)
 
+
+/-! ### the unit of the coordinates -/
+
+/-- **the matching does not depend on the unit of the point distance**: with every point distance multiplied by `c > 0`
+(metres → millimetres, degrees → arc seconds), `_dtw` with the accumulation of `p` returns the same coupling `S`, the same
+`nb_links` and `pair` lists, and the score multiplied by `c**p` (by `c` for `p = inf`, unchanged for `p = 0`): no threshold,
+tolerance or other absolute quantity enters the computation -/
+theorem cost_unit_invariant (dist : Pt α → Pt α → α) (c : α) (hc : 0 < c) (p : PNorm)
+    (t1 t2 : List (Pt α)) (h1 : 0 < t1.length) (h2 : 0 < t2.length) :
+    ∃ o o', dtw dist (weight p) t1 t2 = some o ∧ dtw (fun a b => c * dist a b) (weight p) t1 t2 = some o' ∧
+      o'.S = o.S ∧ o'.score = unitFactor c p * o.score ∧ o'.nbLinks = o.nbLinks ∧
+      ∀ j : Nat, (o'.rows[j]?).map (fun r : Row α => r.pair) = (o.rows[j]?).map (fun r : Row α => r.pair) := by
+  apply dtw_hom dist (fun a b => c * dist a b) (weight p) (weight p) (fun a => unitFactor c p * a)
+    (mul_le_mul_pos_iff _ (unitFactor_pos c hc p)) t1 t2 t1 t2 rfl rfl h1 h2
+  · have := weight_unit c hc p 0 (Dmat dist t1 t2 0 0)
+    rw [mul_zero] at this
+    exact this
+  · intro a i j
+    exact weight_unit c hc p a _
+
+/-- **the unit of the coordinates does not matter** (`ENUCoords`, `dim` 1, 2, 3): with every coordinate of both tracks multiplied
+by `c > 0`, `_dtw` returns the same coupling, `nb_links` and `pair` lists, and the score multiplied by `c**p` (`c` for
+`p = inf`) — for a `sqrt` that is homogeneous (`sqrt(c²x) = c·sqrt(x)` on `x ≥ 0`, as the real square root is; in floating
+point this holds exactly when `c` is a power of two, which is what the `slat` stream of the harness exercises) -/
+theorem unit_invariant (sqrt : α → α) (c : α) (hc : 0 < c) (hs : ∀ x, 0 ≤ x → sqrt (c * c * x) = c * sqrt x) (p : PNorm)
+    (d : Nat) (t1 t2 : List (Pt α)) (h1 : 0 < t1.length) (h2 : 0 < t2.length) :
+    ∃ o o', dtw (distance sqrt d) (weight p) t1 t2 = some o ∧
+      dtw (distance sqrt d) (weight p) (t1.map (Pt.scale c)) (t2.map (Pt.scale c)) = some o' ∧
+      o'.S = o.S ∧ o'.score = unitFactor c p * o.score ∧ o'.nbLinks = o.nbLinks ∧
+      ∀ j : Nat, (o'.rows[j]?).map (fun r : Row α => r.pair) = (o.rows[j]?).map (fun r : Row α => r.pair) := by
+  apply dtw_hom (distance sqrt d) (distance sqrt d) (weight p) (weight p) (fun a => unitFactor c p * a)
+    (mul_le_mul_pos_iff _ (unitFactor_pos c hc p)) t1 t2 _ _ (by simp) (by simp) h1 h2
+  · rw [Dmat_scale sqrt c hc hs]
+    have := weight_unit c hc p 0 (Dmat (distance sqrt d) t1 t2 0 0)
+    rw [mul_zero] at this
+    exact this
+  · intro a i j
+    rw [Dmat_scale sqrt c hc hs]
+    exact weight_unit c hc p a _
 
 end field
 
@@ -661,20 +924,20 @@ example : ∀ a b d : ℚ, a ≤ b → weight PNorm.two a d ≤ weight PNorm.two
 /-- tracks `0,1,0` and `1,0,1` (altitudes), `p = 1`: up and left tie below the diagonal at the last cell; the score is 2
 and the returned coupling `(0,0) (1,0) (2,1) (2,2)` costs `1 + 0 + 0 + 1 = 2`. -/
 example :
-    (dtw (α := Int) id (weight PNorm.one) 1 [⟨0, 0, 0⟩, ⟨0, 0, 1⟩, ⟨0, 0, 0⟩] [⟨0, 0, 1⟩, ⟨0, 0, 0⟩, ⟨0, 0, 1⟩]).map
+    (dtw (α := Int) (distance id 1) (weight PNorm.one) [⟨0, 0, 0⟩, ⟨0, 0, 1⟩, ⟨0, 0, 0⟩] [⟨0, 0, 1⟩, ⟨0, 0, 0⟩, ⟨0, 0, 1⟩]).map
       (fun o => (o.score, o.S, o.rows.map (·.pair), o.nbLinks))
     = some (2, [(2, 2), (2, 1), (1, 0), (0, 0)], [[0, 1], [2], [2]], 4) := by decide
 
 /-- same run, `diff` read back: observation 0 has partners `[0, 1]` and holds the distance to the last one (`|0 - 0|`), observations
 1 and 2 have the single partner 2 (`|1 - 1|`, `|0 - 1|`), as `features_read_back` says -/
 example :
-    (dtw (α := Int) id (weight PNorm.one) 1 [⟨0, 0, 0⟩, ⟨0, 0, 1⟩, ⟨0, 0, 0⟩] [⟨0, 0, 1⟩, ⟨0, 0, 0⟩, ⟨0, 0, 1⟩]).map
+    (dtw (α := Int) (distance id 1) (weight PNorm.one) [⟨0, 0, 0⟩, ⟨0, 0, 1⟩, ⟨0, 0, 0⟩] [⟨0, 0, 1⟩, ⟨0, 0, 0⟩, ⟨0, 0, 1⟩]).map
       (fun o => (o.rows.map (·.diff), readBack o.rows))
     = some ([some 0, some 0, some 1], [(0, 0), (1, 0), (2, 1), (2, 2)]) := by decide
 
 /-- the fast variant on the same input (`big = 1000`): same score 2, a different optimal coupling. -/
 example :
-    (fdtw (α := Int) id 1000 (weight PNorm.one) 1 [⟨0, 0, 0⟩, ⟨0, 0, 1⟩, ⟨0, 0, 0⟩] [⟨0, 0, 1⟩, ⟨0, 0, 0⟩, ⟨0, 0, 1⟩]).map
+    (fdtw (α := Int) (distance id 1) 1000 (weight PNorm.one) [⟨0, 0, 0⟩, ⟨0, 0, 1⟩, ⟨0, 0, 0⟩] [⟨0, 0, 1⟩, ⟨0, 0, 0⟩, ⟨0, 0, 1⟩]).map
       (fun o => (o.score, o.rows.map (·.pair), o.nbLinks))
     = some (2, [[0], [0], [1, 2]], 4) := by decide +kernel
 
@@ -682,19 +945,38 @@ example :
 example : let p : PArg := { tyname := "<class'numpy.int32'>", val := some (.nat 2) }
     p.isFn = false ∧ p.isNum = true ∧ p.val = some (.nat 2) := by decide
 
+/-- `math` functions for the examples over `ℚ` (on `ENUCoords` only `sqrt` is called) -/
+def exTrig : Geo.Trig ℚ :=
+  { pi := 3, sin := id, cos := id, tan := id, atan := id, atan2 := fun y _ => y, sqrt := id, log := id, exp := id, pow := fun x _ => x }
+
 /-- a session (altitudes, `dim = 1`): `m = match(t0, t1, DTW, p = numpy.int64(1))`, then `match(m, t2, FRECHET)` with the
 already matched track as first argument, where `t0` itself carried features under the same names: the second call returns
 the links of `t0` with `t2` only (`nb_links = 3`), as `session_history_irrelevant` says -/
 example :
-    (runSeq (α := Int) id (fun _ x => x) (fun n => (n : Int)) 1000
+    (runSeq (α := ℚ) { cls := .enu, T := exTrig } (fun _ x => x) (fun n => (n : ℚ)) 1000
       [some { pts := [⟨0, 0, 0⟩, ⟨0, 0, 1⟩], rows := [{ diff := some 5, pair := [9, 0] }, { diff := some 5, pair := [9, 1] }] },
        some (TrackObj.fresh [⟨0, 0, 1⟩]), some (TrackObj.fresh [⟨0, 0, 2⟩, ⟨0, 0, 0⟩, ⟨0, 0, 3⟩])]
-      [{ front := true, mode := 2, p := { tyname := "<class'numpy.int64'>", val := some (.nat 1) }, dim := 1, a := 0, b := 1 },
-       { front := true, mode := 4, p := PArg.pyInt1, dim := 1, a := 3, b := 2 }]).map
+      [{ front := true, mode := 2, p := { tyname := "<class'numpy.int64'>", val := some (.nat 1) }, dim := .num 1, a := 0, b := 1 },
+       { front := true, mode := 4, p := PArg.pyInt1, dim := .num 1, a := 3, b := 2 }]).map
       (fun r => match r with
         | .matched o => some (o.score, o.rows.map (·.pair), o.nbLinks)
         | _ => none)
     = [some (1, [[0], [0]], 2), some (2, [[0, 1], [2]], 3)] := by decide +kernel
+
+/-- the hypothesis `hd` of `match_onesided` / `compare_correct` is satisfiable on every class of positions: `dim = 2` on `GeoCoords`,
+`dim = 3` on `ECEFCoords`, a callable (here the Manhattan distance of the first two coordinates) on any class -/
+example : ∃ dist, distanceOf (α := ℚ) { cls := .geo, T := exTrig } (.num 2) = .ok dist := ⟨_, (distance_geo _ rfl).2.1⟩
+example : ∃ dist, distanceOf (α := ℚ) { cls := .ecef, T := exTrig } (.num 3) = .ok dist := ⟨_, (distance_ecef _ rfl).2.2⟩
+example : ∃ dist, distanceOf (α := ℚ) { cls := .geo, T := exTrig } (.fn (fun p q => |p.x - q.x| + |p.y - q.y|)) = .ok dist :=
+  ⟨_, distance_function_form _ _⟩
+/-- … and `hsymm` of `match_correct` too, for `dim = 3` on `GeoCoords` -/
+example : ∃ dist, distanceOf (α := ℚ) { cls := .geo, T := exTrig } (.num 3) = .ok dist ∧ ∀ p q, dist p q = dist q p :=
+  ⟨_, (distance_geo _ rfl).2.2, distanceOf_symm _ 3 (Or.inr rfl) _ (distance_geo _ rfl).2.2⟩
+
+/-- the hypotheses on `sqrt` (`hsqrt` of `distanceOf_nonneg`, `hs` of `unit_invariant`) hold of the real square root -/
+example : ∀ x : ℝ, 0 ≤ Real.sqrt x := Real.sqrt_nonneg
+example (c : ℝ) (hc : 0 < c) : ∀ x : ℝ, 0 ≤ x → Real.sqrt (c * c * x) = c * Real.sqrt x :=
+  fun x _ => by rw [Real.sqrt_mul (mul_self_nonneg c), Real.sqrt_mul_self hc.le]
 
 /-- the hypothesis of `compare_mean_power` is satisfiable: for `p = 1` the root is the identity -/
 example : ∀ x : ℚ, 0 ≤ x → npow ((fun (_ : Nat) (y : ℚ) => y) (0+1) x) (0+1) = x := fun _ _ => rfl
